@@ -57,6 +57,9 @@ CLAIMED = {
  "C12": ("dominating branch-fact bound check + must-lockset + eviction typestate through the select cases and helper summaries + gauge provenance over go/ssa",
          "Static: the enqueue is reachable only with backlog length < configured (defaulted) maximum, checked and enqueued in one exclusive critical section, the full edge refuses at once without blocking; after the enqueue every give-up path evicts the caller's own element exactly once and the hand-off path relies on the sender, which evicts exactly once before delivering; the reported size is the list's own length under the queue mutex; queue_size/queue_limit gauges are wired to that accessor and to the configured bound. Numeric equality at every instant of a concurrent history is their consequence, not separately decided.",
          "5/C12"),
+ "C04": ("path-sensitive symbolic bound prover (real arithmetic: Max/Min/Ceil algebra, convex smoothing idiom, branch facts, constructor-derived field invariants, call-site entry facts) over go/ssa",
+         "Static, real arithmetic (IEEE rounding and overflow not modelled): every post-construction store of the estimate of AIMD, Vegas, Gradient and Gradient2 is proved on every path >= 1, >= the configured minimum and <= max(configured maximum, old estimate) under the configuration assumptions the property grants and the inductive hypothesis; every division / Sqrt / Log10 that can run during a sample has its divisor proved != 0 (argument in domain), so no NaN or panic source is unguarded; every lookup-table index is proved within [0, len); wrappers report the delegate's estimate. NaN propagation, rounding and user-supplied functions are not covered.",
+         "5/C04"),
 }
 
 PENDING_REASON = "check not built yet in this session; see DESIGN.md section 5 for the planned static obligations"
